@@ -6,6 +6,9 @@ HERE = os.path.dirname(os.path.dirname(os.path.abspath(__file__)))
 TECH = "deterministic simulation with fault injection: seeded search over operation/fault histories against a reference model, ddmin-minimised replay files"
 
 CLAIMED = {
+ "C08": dict(section="5.3", level="exploration",
+   text="Seeded histories over a pool of long-lived alignment objects (translation, uniform scale, rotation with/without mirroring, similarity with rotation x mirroring, affine, thin-plate splines with both kernels and both singular-value floors incl. near-coincident sources, piecewise affine from PointCloud or TriMesh sources; 2D and 3D): accepted set_target calls (family member + noise, mirrored, arbitrary, exact), rejected targets (wrong n_points / n_dims) in between, copies that diverge, retargeted pseudoinverses, and noise operations (from_vector, apply, in-place composition, as_non_alignment). After every accepted set_target the object is compared with a freshly constructed alignment of the same class and options (map on probe points and source, h_matrix, target, aligned source, alignment error); rejected targets must raise and change nothing; every point set the caller ever passed and every other pool member must be unchanged after every step; GPA transforms must equal AlignmentSimilarity(source_i, gpa.target). Thorough additionally enumerates every class x option vector x 1..3 set_targets. Sampling, not proof.",
+   note="Trusted: the alignment constructors themselves are the oracle for a fresh fit (that is what the property states); generators keep point sets in general position; the caller never edits a target after passing it."),
  "C19": dict(section="5.9", level="exploration",
    text="Seeded programs of LazyList operations (map, per-element map, integer/negative/NumPy index, slices, index arrays and iterables, repeat, + with lazy and plain lists, copy, len, iteration, reversed; nesting to depth 6) over instrumented base lists and over video-backed lists produced by the real import_video / FFMpegVideoReader code running against an in-process fake ffmpeg peer, checked step by step against an ordinary-list model of expression trees and an evaluation/IO event log: lengths and values equal, no evaluation, file open, spawn or pipe read during any non-reading operation, a read causes exactly the evaluations its element depends on (inner before outer), receivers never change. Faults are placed inside reads (element callable or mapped function raises, spawn failure, pipe EIO, killed process, truncated stream, landmark-file EIO, reap moment of the finished process as the one schedule choice): a faulted read may fail but never returns a wrong element and later un-faulted reads recover. Sampling, not proof.",
    note="Trusted: the harness' list model and event accounting; the fake ffmpeg is idealised (frame-accurate -ss, short reads only at end of stream), so defects that depend on real ffmpeg seeking are out of reach; LazyList lengths are capped at 40 and nesting depth at 6."),
